@@ -36,13 +36,17 @@ def run_trace_job(job):
         c["cached"] = True
         return c
     bindir = build_harness(job["profile"], job.get("features"))
-    name = "%s-%s-%s-%s-%d" % (job["driver"], job["gen"], job["tier"], job["profile"] + (job.get("features") or ""), job["shard"])
+    name = "%s-%s-%s-%s-%d" % (job["driver"], job["gen"].replace(":", "_"), job["tier"], job["profile"] + (job.get("features") or ""), job["shard"])
     tdir = os.path.join(WORK, "traces")
     os.makedirs(tdir, exist_ok=True)
     trace = os.path.join(tdir, name + "-%s.ndjson" % key[:8])
     progs = trace + ".progs"
-    cmd = [os.path.join(bindir, job["driver"]), "--gen", job["gen"], "--tier", job["tier"], "--seed", str(job["seed"]),
-           "--shard", "%d/%d" % (job["shard"], job["nshards"]), "--out", trace, "--dump-progs", progs]
+    if job.get("progfile"):
+        cmd = [os.path.join(bindir, job["driver"]), "--prog", job["progfile"],
+               "--shard", "%d/%d" % (job["shard"], job["nshards"]), "--out", trace, "--dump-progs", progs]
+    else:
+        cmd = [os.path.join(bindir, job["driver"]), "--gen", job["gen"], "--tier", job["tier"], "--seed", str(job["seed"]),
+               "--shard", "%d/%d" % (job["shard"], job["nshards"]), "--out", trace, "--dump-progs", progs]
     rc, out, dt = run(cmd, timeout=job.get("driver_timeout", 1800))
     res = dict(job=job, driver_rc=rc, driver_wall=dt, fails=[], drift=[], events=0, monitors=[], cached=False, samples=[], crash=None)
     if rc != 0:
@@ -51,11 +55,21 @@ def run_trace_job(job):
     nev = 0
     sample = []
     try:
-        with open(trace) as f:
+        # a driver that died mid-write leaves a truncated last line: drop it (the crash itself is recorded)
+        good = []
+        with open(trace, errors="replace") as f:
             for line in f:
+                try:
+                    obj = json.loads(line)
+                except Exception:
+                    continue
+                good.append(line)
                 if nev < 3 or (nev % 9973 == 0 and len(sample) < 6):
-                    sample.append(json.loads(line))
+                    sample.append(obj)
                 nev += 1
+        if rc != 0:
+            with open(trace, "w") as f:
+                f.writelines(good)
     except OSError:
         pass
     res["events"] = nev
@@ -115,15 +129,34 @@ def run_trace_job(job):
                     failing_ps.add(f["p"])
                 except Exception:
                     pass
-    try:
-        os.remove(syncf)
-    except OSError:
-        pass
+    isof = trace + ".iso"
+    if job.get("monitors_iso") and os.path.exists(isof):
+        for mod in job["monitors_iso"]:
+            r = tlc.validate_trace(mod, isof, timeout=job.get("tlc_timeout", 1800))
+            res["monitors"].append(dict(module=mod, generated=r["generated"], distinct=r["distinct"], accepted=r["accepted"],
+                                        wall=r["wall"], tool_error=r["tool_error"], rejected=r["rejected"]))
+            for t in r["fails"]:
+                try:
+                    f = dict(property=t[1], formula=t[2], line=t[3], p=t[4][0], i=t[4][1], op=t[4][2], ma=0,
+                             witness=t[5] if len(t) > 5 else None, source=mod, gen=job["gen"], profile=job["profile"],
+                             features=job.get("features"), driver=job["driver"])
+                    res["fails"].append(f)
+                    failing_ps.add(f["p"])
+                except Exception:
+                    pass
+    for x in (syncf, isof):
+        try:
+            os.remove(x)
+        except OSError:
+            pass
     # keep the programs of failing cases for the replay files
     progmap = {}
     if failing_ps and os.path.exists(progs):
-        for line in open(progs):
-            d = json.loads(line)
+        for line in open(progs, errors="replace"):
+            try:
+                d = json.loads(line)
+            except Exception:
+                continue
             if d["p"] in failing_ps:
                 progmap[str(d["p"])] = d["prog"]
     res["programs"] = progmap
@@ -177,7 +210,8 @@ def run_mc_job(job):
         c["cached"] = True
         return c
     r = tlc.model_check(job["module"], job["cfg"], workers=job.get("workers", 8), timeout=job.get("timeout", 3000),
-                        simulate=job.get("simulate"), depth=job.get("depth"), mem=job.get("mem", "8g"), tags=job.get("tags", ()))
+                        simulate=job.get("simulate"), depth=job.get("depth"), mem=job.get("mem", "8g"), tags=job.get("tags", ()),
+                        bounded=job.get("bounded", False))
     r["job"] = job
     r["cached"] = False
     if not r["error"]:
@@ -301,7 +335,8 @@ def check_property(pid, tier, seed):
                             events_validated=sum(r["events"] for r in results_t),
                             programs_executed=nprogs,
                             model_configs=[dict(cfg=r["cfg"], distinct=r["distinct"], generated=r["generated"], diameter=r.get("diameter"),
-                                                wall_s=round(r["wall"], 1), violated=r["violated"], cached=r.get("cached", False)) for r in results_mc],
+                                                wall_s=round(r["wall"], 1), violated=r["violated"], cached=r.get("cached", False),
+                                                exhaustive=r.get("complete", False)) for r in results_mc],
                             trace_jobs=[dict(gen=r["job"]["gen"], profile=r["job"]["profile"], features=r["job"].get("features"),
                                              shard="%d/%d" % (r["job"]["shard"], r["job"]["nshards"]), events=r["events"],
                                              monitors=[m["module"] for m in r["monitors"]], cached=r.get("cached", False)) for r in results_t],
